@@ -39,7 +39,7 @@ type Scn struct {
 	Chunks   []Chunk
 	EndLong  bool     // long gap before the end of input
 	End      string   // "eof" | "error"
-	Consumer string   // eager | lazy | slow
+	Consumer string   // eager | lazy | slow | stalled (not reading while input arrives: back-pressure)
 	Retain   bool     // never hand sequences back (no Finish)
 	CloseAt  int      // call Close before delivering chunk CloseAt (len(Chunks) = before the end); -1 never
 	Sched    []string `json:",omitempty"` // gate schedule (TLC action names), chunks are single symbols then
@@ -252,6 +252,15 @@ func (e *exec) recv(d time.Duration) bool {
 // all delivered input and wait in Read (so that a following long gap is
 // silence the parser actually observes).
 func (e *exec) untilIdle() bool {
+	if e.sc.Consumer == "stalled" {
+		// a consumer that is not reading at all: the parser gets as far as
+		// the channel's capacity lets it; only when it is stuck behind a full
+		// channel with input left is one sequence at a time taken off
+		quiet := time.Now().Add(40 * time.Millisecond)
+		for !e.r.idle() && time.Now().Before(quiet) {
+			time.Sleep(200 * time.Microsecond)
+		}
+	}
 	deadline := time.Now().Add(2 * time.Second)
 	for !e.r.idle() {
 		if time.Now().After(deadline) {
